@@ -1,0 +1,40 @@
+//go:build verif
+
+package minter
+
+import "sync"
+
+var verifStops sync.Map // *Blockchain -> height at which stop() was invoked
+
+// verifStop replaces the os.Exit of stop() when the node runs without a Tendermint node inside a
+// simulator: the decision to stop is recorded and the instance is marked stopped.
+func verifStop(blockchain *Blockchain) bool {
+	if blockchain.tmNode != nil {
+		return false
+	}
+	blockchain.stopped = true
+	verifStops.Store(blockchain, blockchain.Height())
+	return true
+}
+
+// VerifStopped reports whether stop() was invoked on this instance.
+func (blockchain *Blockchain) VerifStopped() bool {
+	_, ok := verifStops.Load(blockchain)
+	return ok
+}
+
+// VerifForget drops simulator bookkeeping for the instance.
+func (blockchain *Blockchain) VerifForget() { verifStops.Delete(blockchain) }
+
+func verifMinGasPrice(blockchain *Blockchain) (uint32, bool) {
+	if blockchain.tmNode == nil {
+		return 1, true
+	}
+	return 0, false
+}
+
+// VerifWaitSnapshot waits for the background snapshot goroutine started by Commit.
+func (blockchain *Blockchain) VerifWaitSnapshot() {
+	blockchain.appDB.WG.Wait()
+	blockchain.wgSnapshot.Wait()
+}
